@@ -26,3 +26,14 @@ Example C13_int_example :
   let s := {| signed := true; width := 8; dbg := true |} in
   C13_int.ok2 s /\ in_range s (10 + 100)%Z /\ in_range s (100 - 10)%Z.
 Proof. cbv [C13_int.ok2 in_range imin imax signed width]. cbn. repeat split; Lia.lia. Qed.
+
+(** the hypotheses of C13_int_rect are satisfiable: 8-bit signed rectangles (3,4,10,20) and (5,6,2,3), overflow checks on *)
+Require Import List. Import ListNotations.
+Local Open Scope Z_scope.
+Example C13_int_rect_example :
+  let s := {| signed := true; width := 8; dbg := true |} in
+  in_range s 0 /\ in_range s 1 /\ in_range s (3 + 10) /\ in_range s (4 + 20) /\ in_range s (5 + 2) /\ in_range s (6 + 3) /\
+  irun s (C13_intrect.env8 (3 :: 4 :: 10 :: 20 :: 5 :: 6 :: 2 :: 3 :: nil)) C13_gen.p_s_rect_contains_rect = Ops.Ret (nil, (1 :: nil)) /\
+  (* and an unrepresentable corner (100 + 100 > 127) panics although x' < x already decides "not contained" *)
+  irun s (C13_intrect.env8 (100 :: 0 :: 100 :: 1 :: 0 :: 0 :: 1 :: 1 :: nil)) C13_gen.p_s_rect_contains_rect = Ops.Panic.
+Proof. cbv [in_range imin imax signed width]. repeat split; try Lia.lia; vm_compute; reflexivity. Qed.
